@@ -165,6 +165,18 @@ class Ctx:
                     self._failed_theorems = getattr(self, "_failed_theorems", set()) | set(failing)
         return ok
 
+    def lean_build_driver(self) -> bool:
+        """the model driver only depends on the Model/Generated files, so it is usable even when a proof no longer checks"""
+        with _lean_lock():
+            try:
+                p = subprocess.run(["lake", "build", "driver"], cwd=LEAN, capture_output=True, text=True, timeout=1500)
+            except subprocess.TimeoutExpired as e:
+                raise ToolFailure("lake build driver timed out") from e
+        if p.returncode != 0:
+            self.broke("model", "driver", "the model driver does not build:\n" + _tail(p.stdout + p.stderr, 40))
+            return False
+        return True
+
     def lean_audit(self, modules: Sequence[str]) -> None:
         """obligations, axioms and forbidden tokens of the given property modules (only call after a green build)"""
         body = "import Lean\n" + "\n".join(f"import {m}" for m in modules)
